@@ -1,3 +1,4 @@
 SPECIFICATION GSpec
+CONSTANT UseCb = FALSE
 CONSTANT Points <- PointsThorough
 CHECK_DEADLOCK FALSE
